@@ -53,6 +53,10 @@ pub struct TokCase {
     pub n_tok: usize,
     pub n_lists: usize,
     pub ops: Vec<TokOp>,
+    /// how many tokenizers (counted from the last one) are created over the world's sibling dictionary (same lexicons,
+    /// grammar and plugins, sparser char.def); they fill the same result lists as the tokenizers of the main dictionary
+    #[serde(default)]
+    pub sibling: usize,
 }
 
 pub fn mode_of(s: &str) -> Mode {
@@ -210,7 +214,9 @@ impl Engine for TokSim {
         let steps = 3 + rng.below(18);
         let heavy = rng.chance(1, 6);
         let ops = gen_ops(&mut rng, &world, n_tok, n_lists, steps, heavy);
-        TokCase { world, n_tok, n_lists, ops }
+        let mut sr = Rng::derive(seed, "toksim/sibling", run);
+        let sibling = if n_tok >= 2 && sr.chance(1, 4) { 1 + sr.below(n_tok - 1) } else { 0 };
+        TokCase { world, n_tok, n_lists, ops, sibling }
     }
 
     fn execute(&self, case: &TokCase, stats: &mut Stats, work: &Path) -> Option<Violation> {
@@ -324,6 +330,9 @@ struct TokState {
     ready: Option<Ready>,
     prev_len: usize,
     debug: bool,
+    /// the un-wrapped dictionary this tokenizer analyses with (main or sibling): fresh references use the same one
+    base: Arc<JapaneseDictionary>,
+    sib: bool,
 }
 
 #[derive(Clone)]
@@ -331,6 +340,7 @@ struct Ready {
     text: String,
     mode: Mode,
     req: Option<InfoSubset>,
+    sib: bool,
     faulted: bool,
     reference: Option<Result<(ListProj, InfoSubset), String>>,
 }
@@ -342,6 +352,8 @@ struct Source {
     req: Option<InfoSubset>,
     /// on-demand splits applied since the analysis: (mode, index) per level
     path: Vec<(Mode, usize)>,
+    /// analysed by a tokenizer of the sibling dictionary
+    sib: bool,
 }
 
 /// the list a history-free run produces for this derivation: fresh analysis, then the same chain of splits
@@ -419,9 +431,16 @@ pub fn execute(case: &TokCase, stats: &mut Stats, work: &Path) -> Option<Violati
         }
     };
     let dict = world.dict.clone();
-    let mut toks: Vec<TokState> = (0..case.n_tok.max(1))
-        .map(|_| {
-            let sim = Arc::new(SimDict::new(dict.clone()));
+    let sibdict = if case.sibling > 0 { crate::worldcache::get_sibling(&case.world, &world) } else { None };
+    if case.sibling > 0 {
+        stats.inc(if sibdict.is_some() { "reach.sibling_dictionary" } else { "sibling_dictionary_did_not_load" });
+    }
+    let n_all = case.n_tok.max(1);
+    let mut toks: Vec<TokState> = (0..n_all)
+        .map(|i| {
+            let sib = sibdict.is_some() && i + case.sibling >= n_all && i > 0;
+            let base = if sib { sibdict.clone().unwrap() } else { dict.clone() };
+            let sim = Arc::new(SimDict::new(base.clone()));
             TokState {
                 tok: StatefulTokenizer::create(sim.clone(), false, Mode::C),
                 sim,
@@ -431,6 +450,8 @@ pub fn execute(case: &TokCase, stats: &mut Stats, work: &Path) -> Option<Violati
                 ready: None,
                 prev_len: 0,
                 debug: false,
+                base,
+                sib,
             }
         })
         .collect();
@@ -509,7 +530,7 @@ pub fn execute(case: &TokCase, stats: &mut Stats, work: &Path) -> Option<Violati
                 let reference = if fired {
                     None
                 } else {
-                    let d = dict.clone();
+                    let d = ts.base.clone();
                     Some(catch(move || fresh_analyse(&d, mode, req, text).map(|l| {
                         let f = l.subset();
                         (project(&l, f), f)
@@ -578,7 +599,7 @@ pub fn execute(case: &TokCase, stats: &mut Stats, work: &Path) -> Option<Violati
                             }
                             Some(Ok(Ok(pf))) => Some(Ok(pf)),
                         };
-                        ts.ready = Some(Ready { text: text.clone(), mode, req, faulted: fired, reference: refr });
+                        ts.ready = Some(Ready { text: text.clone(), mode, req, sib: ts.sib, faulted: fired, reference: refr });
                     }
                 }
             }
@@ -706,7 +727,10 @@ pub fn execute(case: &TokCase, stats: &mut Stats, work: &Path) -> Option<Violati
                     );
                 }
                 ls.shown = Some((sp, fields));
-                ls.source = Some(Source { text: ready.text, mode: ready.mode, req: ready.req, path: vec![] });
+                if ready.sib && reused {
+                    stats.inc("reach.list_reused_across_dictionaries");
+                }
+                ls.source = Some(Source { text: ready.text, mode: ready.mode, req: ready.req, path: vec![], sib: ready.sib });
             }
             TokOp::SplitInto { l, idx, mode, out } => {
                 let li = *l % case.n_lists.max(1);
@@ -768,7 +792,7 @@ pub fn execute(case: &TokCase, stats: &mut Stats, work: &Path) -> Option<Violati
                 let did = match r {
                     Err(p) => {
                         // same op on a fresh pair
-                        let d = dict.clone();
+                        let d = if src.sib { sibdict.clone().unwrap_or_else(|| dict.clone()) } else { dict.clone() };
                         let s2 = src.clone();
                         let rr = catch(move || {
                             let fl = derive_fresh(&d, &s2)?;
@@ -787,7 +811,7 @@ pub fn execute(case: &TokCase, stats: &mut Stats, work: &Path) -> Option<Violati
                     Ok(Ok(d)) => d,
                 };
                 // reference
-                let d = dict.clone();
+                let d = if src.sib { sibdict.clone().unwrap_or_else(|| dict.clone()) } else { dict.clone() };
                 let s2 = src.clone();
                 let fields_a = a.shown.as_ref().map(|x| x.1).unwrap_or(InfoSubset::empty());
                 let rr = catch(move || -> Result<(bool, ListProj), String> {
